@@ -39,7 +39,13 @@ def main():
              "| id | property | needs to manifest | patch applies | tests kept | demo clean/changed | caught by (quick) | first report |", "|---|---|---|---|---|---|---|---|"]
     bad = 0
     for sid, meta, out in results:
-        caught = out.get("caught_by", [])
+        caught = out.get("caught_by", []) or []
+        if meta.get("neutralised_by"):
+            lines.append("| {} | {} | {} | {} | - | {}/{} | (neutralised by a later repair of /repo: no longer a property-breaking change) | {} |".format(
+                sid, meta["breaks_property"], meta.get("needs_to_manifest", "")[:120], out.get("patch_applies"), out.get("demo_clean_exit"),
+                out.get("demo_changed_exit"), meta["neutralised_by"][:140].replace("|", "/")))
+            print(sid, "NEUTRALISED", out.get("patch_applies"), out.get("valid_seed"))
+            continue
         okk = out.get("valid_seed") and meta["breaks_property"] in caught
         bad += 0 if okk else 1
         first = ""
